@@ -213,9 +213,29 @@ def run_and_compare(prog, pred, text=None, flags=None, ordered=False, rules=None
         rows = [() for _ in rows]
     d = canon.rows_match(exp, rows, ordered=ordered)
     if d is not None:
-        return 'fail', 'rows_differ', '%s\nexpected %r\nactual   %r\n--- predicate %s\n%s' % (
+        bucket = 'rows_differ'
+        q = attribute_to_quirks(prog, pred, rows, ordered)
+        if q:
+            bucket = 'rows_differ:quirk:' + '+'.join(q)
+        return 'fail', bucket, '%s\nexpected %r\nactual   %r\n--- predicate %s\n%s' % (
             d, sorted(map(repr, exp))[:12], sorted(map(repr, rows))[:12], pred, text), info
     return 'ok', None, '', info
+
+
+def attribute_to_quirks(prog, pred, rows, ordered):
+    """Smallest set of recorded engine deviations (ref.QUIRKS) under which the
+    reference reproduces the actual rows; () if none does."""
+    import itertools
+    for n in range(1, len(ref.QUIRKS) + 1):
+        for q in itertools.combinations(ref.QUIRKS, n):
+            try:
+                ev = ref.Evaluator(prog, budget=150000, quirks=q)
+                cols, exp = expected_rows(ev, prog, pred)
+            except Exception:
+                continue
+            if canon.rows_match(exp, rows, ordered=ordered) is None:
+                return q
+    return ()
 
 
 def first_line(e):
